@@ -660,9 +660,11 @@ impl<'a> ParserState<'a> {
         let token = self.expect_token(context, A2lTokenType::Number)?;
         let text = self.get_token_text(token);
         if text.len() > 2 && (text.starts_with("0x") || text.starts_with("0X")) {
+            let bits = 8 * std::mem::size_of::<T>() as u32;
             match u64::from_str_radix(&text[2..], 16) {
-                Ok(num_u64) => Ok((num_u64.as_(), true)),
-                Err(_) => Err(ParserError::malformed_number(self, context, text)),
+                // the hex notation describes the bit pattern of the value, so it must fit into the type
+                Ok(num_u64) if bits >= 64 || (num_u64 >> bits) == 0 => Ok((num_u64.as_(), true)),
+                _ => Err(ParserError::malformed_number(self, context, text)),
             }
         } else {
             match text.parse() {
